@@ -94,7 +94,8 @@ RuleT == T(Z2, Z22, 1, 0, Z2)
 PartA(tm) == T(tm.a, tm.A, tm.c, 0, Z2)
 PartB(tm) == T(Z2, Z22, 0, -tm.b, NegV(tm.B))
 SplitSound == \A t \in RowTemplates \cup UNION {{a[1], a[2]} : a \in ArrTemplates} :
-                  SubT(PartA(Template(t)), PartB(Template(t))) = Template(t)
+                  /\ SubT(PartA(Template(t)), PartB(Template(t))) = Template(t)
+                  /\ SubT(Template(t), ConstT(0)) = Template(t)
 
 OpOf(sense) == CASE sense = "le" -> "<=" [] sense = "ge" -> ">=" [] sense = "eq" -> "=="
 SenseOf(op) == CASE op = "<=" -> "le" [] op = ">=" -> "ge" [] op = "==" -> "eq"
@@ -115,56 +116,64 @@ Spell(a, b, op, sp) ==
 \* R2  a == b   |   a <= b and a >= b
 RowOps(sense, esp) == IF sense = "eq" /\ esp = "split" THEN <<"<=", ">=">> ELSE <<OpOf(sense)>>
 
-Cmp(l, r, op, neg, k, style, set, item) ==
+Cmp(l, r, op, neg, k, style, cfirst, set, item) ==
     [kind |-> "cmp", l |-> l, r |-> r, op |-> op, neg |-> neg, num |-> k[1], den |-> k[2],
-     style |-> style, set |-> set, item |-> item]
+     style |-> style, cfirst |-> cfirst, set |-> set, item |-> item]
 
-\* R3  positive rescaling: both sides multiplied by num/den          (field num, den of the statement)
-\* R4  array expression | element-wise loop: "vec" keeps the row (all rows of an array row) as ONE
+\* R3  terms moved across the comparison:  a <= b  ("sides": decisions left, the rest right)  |
+\*     a - b <= 0  ("left": everything on the left, the plain number 0 on the right)
+SideA(tm, msp) == IF msp = "left" THEN tm ELSE PartA(tm)
+SideB(tm, msp) == IF msp = "left" THEN ConstT(0) ELSE PartB(tm)
+\* R4  the constant term of a side written first (number + expression, number - expression: the reflected
+\*     operators) | last.  A side is a SUM; its coefficient record does not depend on the order of the terms
+\*     (commutativity of +), so the field cfirst does not enter Meaning.
+\* R5  positive rescaling: both sides multiplied by num/den          (field num, den of the statement)
+\* R6  array expression | element-wise loop: "vec" keeps the row (all rows of an array row) as ONE
 \*     comparison of array expressions written with matrix products; "loop" writes one comparison per
 \*     row with entry-wise sums
 RowStmts(p, pr, i) ==
     LET r   == p.rows[i]
         tms == [j \in 1..Len(r.ts) |-> Template(r.ts[j])]
-        a   == [j \in 1..Len(tms) |-> PartA(tms[j])]
-        b   == [j \in 1..Len(tms) |-> PartB(tms[j])]
+        a   == [j \in 1..Len(tms) |-> SideA(tms[j], pr.msp[i])]
+        b   == [j \in 1..Len(tms) |-> SideB(tms[j], pr.msp[i])]
+        cf  == pr.csp[i] = "first"
         ops == RowOps(r.sense, pr.esp[i])
         one(op) == LET c == Spell(a, b, op, pr.rsp[i]) IN
                    IF pr.asp[i] = "vec"
-                   THEN << Cmp(c.l, c.r, c.op, c.neg, pr.rsc[i], "vec", r.set, i) >>
-                   ELSE [j \in 1..Len(tms) |-> Cmp(<<c.l[j]>>, <<c.r[j]>>, c.op, c.neg, pr.rsc[i], "loop", r.set, i)]
+                   THEN << Cmp(c.l, c.r, c.op, c.neg, pr.rsc[i], "vec", cf, r.set, i) >>
+                   ELSE [j \in 1..Len(tms) |-> Cmp(<<c.l[j]>>, <<c.r[j]>>, c.op, c.neg, pr.rsc[i], "loop", cf, r.set, i)]
     IN FlattenSeq([o \in 1..Len(ops) |-> one(ops[o])])
 
-\* R5  the decision box -XB <= x <= XB: Bounds object on the array | Bounds object per entry |
+\* R7  the decision box -XB <= x <= XB: Bounds object on the array | Bounds object per entry |
 \*     linear constraints 1*x <= XB, -1*x <= XB | norm(x, inf) <= XB | abs(x) <= XB
 BoxSymmetric == TRUE      \* the box of the family is [-XB, XB]^2; norm spellings need lo = -hi
 BoundStmts(pr, item) ==
     CASE pr.bsp = "arr" -> << [kind |-> "bnd", how |-> "arr", lo |-> -XB, hi |-> XB, item |-> item] >>
       [] pr.bsp = "ent" -> << [kind |-> "bnd", how |-> "ent", lo |-> -XB, hi |-> XB, item |-> item] >>
-      [] pr.bsp = "lin" -> << Cmp(<<UnitT(1), UnitT(2)>>, <<ConstT(XB), ConstT(XB)>>, "<=", FALSE, <<1, 1>>, "vec", 0, item),
-                              Cmp(<<NegT(UnitT(1)), NegT(UnitT(2))>>, <<ConstT(XB), ConstT(XB)>>, "<=", FALSE, <<1, 1>>, "vec", 0, item) >>
+      [] pr.bsp = "lin" -> << Cmp(<<UnitT(1), UnitT(2)>>, <<ConstT(XB), ConstT(XB)>>, "<=", FALSE, <<1, 1>>, "vec", FALSE, 0, item),
+                              Cmp(<<NegT(UnitT(1)), NegT(UnitT(2))>>, <<ConstT(XB), ConstT(XB)>>, "<=", FALSE, <<1, 1>>, "vec", FALSE, 0, item) >>
       [] pr.bsp = "inf" -> << [kind |-> "norm", how |-> "inf", rad |-> XB, item |-> item] >>
       [] pr.bsp = "abs" -> << [kind |-> "norm", how |-> "abs", rad |-> XB, item |-> item] >>
 
 \* the decision rule is boxed on the default set (part of the family, spelled one way)
 RuleStmts(item) ==
-    << Cmp(<<RuleT>>, <<ConstT(XB)>>, "<=", FALSE, <<1, 1>>, "loop", 0, item),
-       Cmp(<<RuleT>>, <<ConstT(-XB)>>, ">=", FALSE, <<1, 1>>, "loop", 0, item) >>
+    << Cmp(<<RuleT>>, <<ConstT(XB)>>, "<=", FALSE, <<1, 1>>, "loop", FALSE, 0, item),
+       Cmp(<<RuleT>>, <<ConstT(-XB)>>, ">=", FALSE, <<1, 1>>, "loop", FALSE, 0, item) >>
 
-\* R6  any order of the statements
+\* R8  any order of the statements
 ItemStmts(p, pr, it) ==
     IF it <= NR(p) THEN RowStmts(p, pr, it)
     ELSE IF it = NR(p) + 1 THEN BoundStmts(pr, it)
     ELSE RuleStmts(it)
 
-\* R7  min f  |  -(max -f)  (minmax f | -(maxmin -f)); the reported value is negated
+\* R9  min f  |  -(max -f)  (minmax f | -(maxmin -f)); the reported value is negated
 ObjPres(p, pr) ==
     LET neg == pr.osp = "negated" IN
     [call |-> IF neg THEN Opp(p.osense) ELSE p.osense,
      e |-> IF neg THEN NegT(Template(p.obj)) ELSE Template(p.obj),
      negrep |-> neg]
 
-\* R8  a set given as one list | several arguments | a tuple | a generator | a constraint and a list |
+\* R10 a set given as one list | several arguments | a tuple | a generator | a constraint and a list |
 \*     nested lists.  NCons = number of constraints of the H-representation in harness/ro_catalogue.py.
 NCons(s) == CASE s \in {1, 2, 3, 9, 16} -> 2 [] s = 7 -> 1 [] OTHER -> 0
 AllCons(s) == [i \in 1..NCons(s) |-> i]
@@ -176,10 +185,10 @@ SpellSet(s, sp) ==
 
 UsedSets(p) == ({p.dset} \cup {p.rows[i].set : i \in 1..NR(p)}) \ {0}
 
-\* R9  front end: rsome.ro | rsome.dro with ONE scenario, an ambiguity set whose only information is the
+\* R11 front end: rsome.ro | rsome.dro with ONE scenario, an ambiguity set whose only information is the
 \*     support (= the uncertainty set), objective minsup / maxinf of the expression ("dro") or of its
 \*     expectation ("droE")
-\* R10 any order of declaring the variables (field decl) and the objective before/after the constraints
+\* R12 any order of declaring the variables (field decl) and the objective before/after the constraints
 Present(p, pr) ==
     [front |-> pr.front, decl |-> pr.decl, opos |-> pr.opos, xint |-> p.xint, mask |-> p.mask,
      dset |-> p.dset, obj |-> ObjPres(p, pr),
@@ -281,6 +290,7 @@ Pres0(p) ==
     [osp |-> "direct", opos |-> "first", decl |-> DeclKinds(p), order |-> [i \in 1..NI(p) |-> i],
      rsp |-> [i \in 1..NR(p) |-> "dir"], rsc |-> [i \in 1..NR(p) |-> <<1, 1>>],
      esp |-> [i \in 1..NR(p) |-> "one"], asp |-> [i \in 1..NR(p) |-> "loop"],
+     msp |-> [i \in 1..NR(p) |-> "sides"], csp |-> [i \in 1..NR(p) |-> "last"],
      bsp |-> "arr", ssp |-> "list", front |-> "ro"]
 
 \* TLC evaluates every initial state (also in simulation mode): the oracle is computed by the first
@@ -317,6 +327,8 @@ SplitEq(i) == /\ CanStep("SplitEq")
               /\ prog.rows[i].sense = "eq"
               /\ Step("SplitEq", i, "", [pres EXCEPT !.esp[i] = IF @ = "one" THEN "split" ELSE "one"])
 ArrLoop(i) == CanStep("ArrLoop") /\ i \in Rows /\ Step("ArrLoop", i, "", [pres EXCEPT !.asp[i] = IF @ = "loop" THEN "vec" ELSE "loop"])
+MoveTerms(i) == CanStep("MoveTerms") /\ i \in Rows /\ Step("MoveTerms", i, "", [pres EXCEPT !.msp[i] = IF @ = "sides" THEN "left" ELSE "sides"])
+MoveConst(i) == CanStep("MoveConst") /\ i \in Rows /\ Step("MoveConst", i, "", [pres EXCEPT !.csp[i] = IF @ = "last" THEN "first" ELSE "last"])
 RespellBounds(b) == /\ CanStep("RespellBounds")
                     /\ pres.bsp # b
                     /\ (b \in {"inf", "abs"} => BoxSymmetric)
@@ -340,6 +352,8 @@ RwNext == \/ Start
           \/ \E i \in 1..MaxRows, k \in Scales : Rescale(i, k)
           \/ \E i \in 1..MaxRows : SplitEq(i)
           \/ \E i \in 1..MaxRows : ArrLoop(i)
+          \/ \E i \in 1..MaxRows : MoveTerms(i)
+          \/ \E i \in 1..MaxRows : MoveConst(i)
           \/ \E b \in BoundSpellings : RespellBounds(b)
           \/ \E sp \in SetSpellings : RespellSet(sp)
           \/ \E f \in Fronts : SwitchFront(f)
